@@ -163,6 +163,18 @@ func (e *Engine) fmtArg(fr *frame, out *fmtOut, spec string, verb byte, arg V) {
 			out.str("]")
 			return
 		}
+	case KArray:
+		if at, ok := it.T.Underlying().(*types.Array); ok {
+			out.str("[")
+			for i, x := range v.fields() {
+				if i > 0 {
+					out.str(" ")
+				}
+				e.fmtArg(fr, out, "%"+string(verb), verb, e.boxForFmt(at.Elem(), x))
+			}
+			out.str("]")
+			return
+		}
 	case KPtr:
 		if v.ptr() == nil {
 			out.str("<nil>")
